@@ -57,6 +57,27 @@ func vcsID(b []byte) int {
 	return k
 }
 
+// vcsBase wraps the base store: a Put can be held inside the write and made to fail
+// (what a cancelled context / full disk does to a bolt transaction).
+type vcsBase struct {
+	chain.Store
+	hold    chan struct{} // non-nil: the next Put parks here
+	parked  chan struct{}
+	failErr error
+}
+
+func (b *vcsBase) Put(ctx context.Context, bc *common.Beacon) error {
+	if h := b.hold; h != nil {
+		b.hold = nil
+		b.parked <- struct{}{}
+		<-h
+		if b.failErr != nil {
+			return b.failErr
+		}
+	}
+	return b.Store.Put(ctx, bc)
+}
+
 type vcsStack struct {
 	base chain.Store
 	cbs  CallbackStore
@@ -151,7 +172,9 @@ func TestVerifChainStore(t *testing.T) {
 			}
 			return memdb.NewStore(64)
 		}
-		base := open()
+		raw := open()
+		wb := &vcsBase{Store: raw, parked: make(chan struct{}, 1)}
+		var base chain.Store = wb
 		// genesis, as NewHandler does
 		if err := base.Put(ctx, chain.GenesisBeacon(vcsSig(0))); err != nil {
 			t.Fatal(err)
@@ -189,11 +212,44 @@ func TestVerifChainStore(t *testing.T) {
 			case "Restart":
 				if sc.Backend != "memdb" {
 					_ = base.Close()
-					base = open()
+					raw = open()
+					wb = &vcsBase{Store: raw, parked: make(chan struct{}, 1)}
+					base = wb
 				}
 				_ = base.Put(ctx, chain.GenesisBeacon(vcsSig(0)))
 				st = vcsBuild(t, base, sch)
 				tr.Emit("Restart", vlib.E{"rows": vcsRows(base)})
+			case "FailRace":
+				// writer A's base write of head+1 is held and then FAILS; writer B meanwhile tries head+2.
+				lastB, _ := st.cbs.Last(ctx)
+				mk := func(r uint64, sig int, prev []byte) *common.Beacon {
+					return &common.Beacon{Round: r, Signature: vcsSig(sig), PreviousSig: prev}
+				}
+				a := mk(lastB.Round+1, 5, lastB.Signature)
+				bb := mk(lastB.Round+2, 6, vcsSig(5))
+				hold := make(chan struct{})
+				wb.hold, wb.failErr = hold, context.Canceled
+				resA, resB := make(chan string, 1), make(chan string, 1)
+				go func() { resA <- vcsClass(st.cbs.Put(ctx, a)) }()
+				parked := false
+				select {
+				case <-wb.parked:
+					parked = true
+				case <-time.After(2 * time.Second):
+				}
+				go func() { resB <- vcsClass(st.cbs.Put(ctx, bb)) }()
+				time.Sleep(30 * time.Millisecond)
+				close(hold)
+				ra := <-resA
+				rb := ""
+				select {
+				case rb = <-resB:
+				case <-time.After(3 * time.Second):
+					rb = "blocked"
+				}
+				wb.failErr = nil
+				tr.Emit("FailRace", vlib.E{"parked": parked, "a": []int{int(a.Round), 5, vcsID(a.PreviousSig)}, "b": []int{int(bb.Round), 6, 5},
+					"resA": ra, "resB": rb, "rows": vcsRows(base)})
 			case "Race":
 				// mutual exclusion of appendStore.Put: writer A is parked INSIDE the critical section,
 				// writer B tries the same round with another signature; B must not enter.
